@@ -47,7 +47,9 @@ def run(chk):
         tid += 1
     sw, res = chk.generate(sweep.c03_sweep_task, tasks)
     chk.extra['sweep_results_judged'] = sum(r['events'] for r in res)
-    chk.validate('TraceBDD', 'TraceBDD.cfg', sh)
+    sh_stream = common.stage_histories(chk, ntraces=32 if q else 1500, steps=10 if q else 40,
+                                       nvars_choices=[3, 4, 4], profile='stream', tag='st')
+    chk.validate('TraceBDD', 'TraceBDD.cfg', sh + sh_stream)
     chk.validate('TraceSweep', 'TraceSweep.cfg', sw)
     common.sweep_canary(chk, sw[0], 'row.quantify', 'op.quantify')
     chk.exhaustive = not q
